@@ -55,7 +55,7 @@ def check_config(ift, c, jaxcf=None):
     if not np.allclose(ift.power_analyze(cf, binbounds=bb).asnumpy(), 25 * spec.asnumpy(), rtol=1e-14):
         out.append("power_analyze of a complex field is not the spectrum of its squared modulus")
     # sub-space of a product domain
-    other = ift.UnstructuredDomain(2)
+    other = ift.RGSpace(2)       # a structured (position) space: unstructured domains have no volume by design and cannot be analysed
     dom = ift.DomainTuple.make((other, sp))
     f = ift.makeField(dom, np.stack([amp.asnumpy(), 2 * amp.asnumpy()]))
     pa = ift.power_analyze(f, spaces=1, binbounds=bb)
